@@ -155,10 +155,10 @@ def parse_interactions(lines, comments='#', directed=False, delimiter=None, node
         if op == '+':
             G.add_interaction(u, v, t=s)
         else:
+            # the interaction vanishes at s: it stays present from its latest appearance through s - 1
             timestamps = G.adj[u][v]['t']
             if len(timestamps) > 0 and timestamps[-1][1] < s:
-                for t in range(timestamps[-1][1], s):
-                    G.add_interaction(u, v, t=t)
+                G.add_interaction(u, v, t=timestamps[-1][1], e=s)
 
     return G
 
